@@ -359,11 +359,19 @@ func c07Stream(max int) (toks []c07Tok, complete bool, values int) {
 				allowed = []int{0, 2, 3, 4, 5, 6}
 			}
 		}
+		if len(stack) == 0 && top > 0 {
+			// after a complete value: also a stray closing delimiter or colon (which the decoder reports as a syntax error)
+			allowed = append(allowed, 7, 8, 9)
+		}
 		c := vrt.Choice("t"+string(rune('0'+len(toks))), len(allowed)+1)
 		if c == len(allowed) {
 			break // end of input here
 		}
 		k := allowed[c]
+		if k >= 7 {
+			toks = append(toks, c07Tok{kind: k})
+			return toks, false, top // the input is not a single complete value; nothing can follow a syntax error
+		}
 		t := c07Tok{kind: k}
 		if k == 4 {
 			t.str = string(rune('a' + len(toks)))
@@ -408,6 +416,10 @@ func c07Render(toks []c07Tok) string {
 			} else {
 				out += "]"
 			}
+			continue
+		}
+		if t.kind >= 7 {
+			out += " " + string("}]:"[t.kind-7])
 			continue
 		}
 		if len(stack) > 0 {
@@ -468,6 +480,8 @@ func H_C07_Tokens() {
 				list[i] = t.str
 			case 5:
 				list[i] = json.Number(strconv.Itoa(t.num))
+			case 7, 8, 9:
+				list[i] = vrt.StraySyntax(string("}]:"[t.kind-7])) // the decoder stub answers with a syntax error here
 			default:
 				list[i] = nil
 			}
